@@ -90,6 +90,8 @@ inductive LOwner where
 inductive UOwner where
   | load (fetchAll : Bool) (lo : LOwner)
   | cfetch (g : String)
+  /-- `_load_topic_partitions` call `l` -/
+  | ltp (l : Nat)
   deriving DecidableEq, Repr
 
 inductive ReqOwner where
@@ -115,12 +117,16 @@ structure Req where
   pending : Bool := true
   /-- `failure` recorded by `_mrtb_timeout` -/
   timedOut : Bool := false
+  /-- the group of a `_send_request_to_coordinator` request -/
+  grp : Option String := none
   owner : ReqOwner
   deriving DecidableEq, Repr
 
 inductive TimerWhat where
   | mrtb (k : Nat)
   | boot (j : Nat)
+  /-- retry delay of `_load_topic_partitions` call `l` -/
+  | retry (l : Nat)
   deriving DecidableEq, Repr
 
 structure Timer where
@@ -219,7 +225,21 @@ structure Cfg where
   timeout : Rat
   disconnectOnTimeout : Bool
   bootHosts : List (String × Int)
+  /-- what `retry_policy(attempt)` returns (the harness passes a constant policy) -/
+  retryDelay : Rat := 1/2
   deriving Repr
+
+inductive LPhase where
+  | waiting | sleeping | done
+  deriving DecidableEq, Repr
+
+/-- a `_load_topic_partitions` call: `topics` is the (re-bound) local of the coroutine -/
+structure Ltp where
+  l : Nat
+  o : Nat
+  topics : List String
+  phase : LPhase
+  deriving DecidableEq, Repr
 
 /-- environment answers given synchronously inside a step -/
 structure Env where
@@ -240,7 +260,8 @@ structure St where
   /-- `self.close_dlist` -/
   closeDlist : Option Nat := none
   /-- the aggregate the Deferred returned by `close()` is -/
-  closeWait : Option (Nat × Nat) := none
+  closeWait : List (Nat × Nat) := []
+  ltps : List Ltp := []
   unawares : List Unaware := []
   cfetches : List CFetch := []
   sends : List Send := []
@@ -278,6 +299,8 @@ inductive Ob where
 /-- pending synchronous work, executed depth first -/
 inductive Act where
   | fireReq (k : Nat) (r : Res) (nested : Bool)
+  /-- hand the (already substituted) result of request `k` to its owner -/
+  | deliver (owner : ReqOwner) (k : Nat) (r : Res)
   | timeoutFired (k : Nat)
   | cancelReq (k : Nat)
   | bootTimeout (j : Nat)
@@ -307,7 +330,13 @@ inductive Act where
   | cancelBoots
   | cancelU (u : Nat)
   | mergeTopics (ts : List TopicMeta) (lo : LOwner)
+  | ltpMerged (l : Nat) (ts : List TopicMeta)
+  | ltpWake (l : Nat)
+  | ltpFail (l : Nat) (k : Kind)
+  | cancelDelays
+  | cancelDelay (l : Nat)
   | finishClose (o : Nat)
+  | closeAgain (o : Nat)
   | opResult (o : Nat) (r : OpRes)
   deriving Repr
 
@@ -370,6 +399,14 @@ def getBrokerClient (st : St) (node : Int) : Except Kind (St × Nat × List Ob) 
                      cache := { st.cache with clients := st.cache.clients ++ [(node, bm)] } },
            b, [.bcNew b node bm.host bm.port])
 
+/-- `expectResponse=False` on a connected broker client: the Deferred fires inside `makeRequest` -/
+def syncFire (st : St) (b : Nat) (expect : Bool) : Bool :=
+  !expect && (match bcGet st b with | some i => i.conn | none => false)
+
+def grpOf : ReqWhat → Option String
+  | .group g => some g
+  | _ => none
+
 /-- `_make_request_to_broker(broker, …)`: `makeRequest`, then `callLater(timeout)`; with
     `expectResponse=False` on a connected broker client the Deferred has already fired when
     `addBoth(_mrtb_cb)` runs.  Returns the request id and the follow-up actions. -/
@@ -380,11 +417,36 @@ def makeRequest (cfg : Cfg) (st : St) (b : Nat) (owner : ReqOwner) (expect : Boo
     | some m => if cfg.timeout < m then m else cfg.timeout
     | none => cfg.timeout
   let due := st.now + timeout
-  let st1 := { st with reqs := st.reqs ++ [{ k := k, b := b, issued := st.now, due := due, owner := owner }],
-                       timers := insertTimer { what := .mrtb k, due := due } st.timers }
-  let connected := match bcGet st b with | some i => i.conn | none => false
-  let obs := [Ob.mk k b expect what] ++ (if !expect && connected then [Ob.fired k none] else []) ++ [Ob.setTimer (.mrtb k) due]
-  (st1, k, obs, if !expect && connected then [Act.fireReq k (.ok .none) false] else [])
+  -- when the Deferred fires inside `makeRequest`, `_mrtb_cb` runs as soon as it is attached and
+  -- cancels the timer that was just armed
+  let sync := syncFire st b expect
+  let st1 := { st with reqs := st.reqs ++ [{ k := k, b := b, issued := st.now, due := due, pending := !sync, grp := grpOf what, owner := owner }],
+                       timers := if sync then st.timers else insertTimer { what := .mrtb k, due := due } st.timers }
+  let obs := [Ob.mk k b expect what] ++ (if sync then [Ob.fired k none] else []) ++ [Ob.setTimer (.mrtb k) due]
+    ++ (if sync then [Ob.cancelTimer (.mrtb k)] else [])
+  (st1, k, obs, if sync then [Act.deliver owner k (.ok .none)] else [])
+
+structure IssueOk where
+  st : St
+  k : Nat
+  obs : List Ob
+  acts : List Act
+
+structure IssueErr where
+  st : St
+  obs : List Ob
+  kind : Kind
+
+/-- `broker = self._get_brokerclient(node)` (may create the broker client), the encoder (`reject`: it
+    refuses the payloads), then `_make_request_to_broker(broker, …)` -/
+def issueTo (cfg : Cfg) (st : St) (node : Int) (owner : ReqOwner) (expect : Bool) (what : ReqWhat)
+    (minTimeout : Option Rat) (reject : Bool) : Except IssueErr IssueOk :=
+  match getBrokerClient st node with
+  | .error kd => .error { st := st, obs := [], kind := kd }
+  | .ok (st1, b, obs1) =>
+    if reject then .error { st := st1, obs := obs1, kind := .other "ValueError" } else
+    let mr := makeRequest cfg st1 b owner expect what minTimeout
+    .ok { st := mr.1, k := mr.2.1, obs := obs1 ++ mr.2.2.1, acts := mr.2.2.2 }
 
 def insertByNode (a : BcInst) : List BcInst → List BcInst
   | [] => [a]
@@ -480,12 +542,17 @@ def exec (cfg : Cfg) (st : St) : Act → St × List Ob × List Act
     match reqGet st k with
     | none => (st, [.badOp "fireReq"], [])
     | some q =>
-      if !q.pending then (st, [.late k], []) else
+      -- a nested completion (close, cancel) skips a request that has meanwhile been resolved; a reply
+      -- from the network to a resolved request is swallowed by the broker client (`late`)
+      if !q.pending then (st, if nested then [] else [.late k], []) else
       let st1 := setReq st k (fun x => { x with pending := false })
       let (st2, obs) := if timerActive st1 (.mrtb k) then (cancelTimer st1 (.mrtb k), [Ob.cancelTimer (.mrtb k)]) else (st1, [])
       let r' := if q.timedOut then Res.err Kind.timedOut else r
       let (st3, acts) := reqDone st2 q.owner k r'
       (st3, (if nested then [Ob.fired k (match r with | .ok _ => none | .err kd => some kd)] else []) ++ obs, acts)
+  | .deliver owner k r =>
+    let (st1, acts) := reqDone st owner k r
+    (st1, [], acts)
   | .timeoutFired k =>
     -- `_mrtb_timeout`: record the failure, `d.cancel()` (the broker client errbacks at once and
     -- `_mrtb_cb` substitutes the recorded failure), then the optional `disconnect()`
@@ -517,12 +584,10 @@ def exec (cfg : Cfg) (st : St) : Act → St × List Ob × List Act
         | none => (st, [.badOp "shuffle"], [])
         | some (st1, hosts) => (st1, [], [.bootNext u hosts])
       | n :: rest =>
-        match getBrokerClient st n with
-        | .error kd => (st, [], [.unawareDone u (.err kd)])
-        | .ok (st1, b, obs1) =>
-          let what := match x.kind with | .metadata ts => ReqWhat.metadata ts | .coord g => ReqWhat.coord g
-          let mr := makeRequest cfg st1 b (.unaware u rest) true what none
-          (setUnaware mr.1 u (fun y => { y with st := .onBroker mr.2.1 }), obs1 ++ mr.2.2.1, mr.2.2.2)
+        match issueTo cfg st n (.unaware u rest) true
+            (match x.kind with | .metadata ts => ReqWhat.metadata ts | .coord g => ReqWhat.coord g) none false with
+        | .error e => (e.st, e.obs, [.unawareDone u (.err e.kind)])
+        | .ok i => (setUnaware i.st u (fun y => { y with st := .onBroker i.k }), i.obs, i.acts)
   | .bootNext u hosts =>
     if st.closing then (st, [], [.unawareDone u (.err .afkakCancelled)]) else
     match hosts with
@@ -558,6 +623,16 @@ def exec (cfg : Cfg) (st : St) : Act → St × List Ob × List Act
         | .ok .garbage => (st0, [], deliverLoad lo (.err (.other garbageCls)))
         | .ok _ => (st0, [.badOp "payload"], [])
         | .err kd => (st0, [], deliverLoad lo (if kd.isCancel then .ok .none else .err .unavailable))
+      | .ltp l =>
+        match r with
+        | .ok (.metadata bs ts) =>
+          let byId := dictOfList (bs.map (fun b => (b.nodeId, b)))
+          let ub := updateBrokersDict st0.cache byId false
+          let au := applyUpdate st0 ub.1 ub.2 bs
+          (au.1, au.2.1, au.2.2 ++ [.ltpMerged l ts])
+        | .ok .garbage => (st0, [], [.ltpFail l (.other garbageCls)])
+        | .ok _ => (st0, [.badOp "payload"], [])
+        | .err kd => (st0, [], [.ltpFail l kd])
       | .cfetch g =>
         let ws := ((st0.cfetches.filter (fun f => f.g == g)).flatMap (·.waiters)).filter (fun w => !w.2)
         let st1 := { st0 with cfetches := st0.cfetches.filter (fun f => !(f.g == g)) }
@@ -646,18 +721,15 @@ def exec (cfg : Cfg) (st : St) : Act → St × List Ob × List Act
         match slots[j]? with
         | none => (st, [.badOp "issueSlot idx"], [])
         | some sl =>
-          match getBrokerClient st sl.node with
-          | .error kd => (st, [], [.sendFail s kd])
-          | .ok (st1, b, obs1) =>
-            -- the encoder refuses a repeated (topic, partition) in one request (`ValueError`, raised after
-            -- the broker client was looked up): the send fails, requests already issued stay in flight
-            if clientEncoderRefusesDuplicates && (sortHP (sl.idxs.filterMap (fun i => x.keys[i]?))).length != sl.idxs.length then
-              (st1, obs1, [.sendFail s (.other "ValueError")])
-            else
-            let mr := makeRequest cfg st1 b (.slot s j) x.expect (.payloads sl.idxs (sl.idxs.filterMap (fun i => x.keys[i]?))) none
-            (setSend mr.1 s (fun y => match y.phase with
-              | .inflight sls => { y with phase := .inflight ((List.range sls.length).zip sls |>.map (fun e => if e.1 == j then { e.2 with k := some mr.2.1 } else e.2)) }
-              | _ => y), obs1 ++ mr.2.2.1, mr.2.2.2)
+          -- the encoder refuses a repeated (topic, partition) in one request (`ValueError`, raised after
+          -- the broker client was looked up): the send fails, requests already issued stay in flight
+          match issueTo cfg st sl.node (.slot s j) x.expect (.payloads sl.idxs (sl.idxs.filterMap (fun i => x.keys[i]?))) none
+              (clientEncoderRefusesDuplicates && (sortHP (sl.idxs.filterMap (fun i => x.keys[i]?))).length != sl.idxs.length) with
+          | .error e => (e.st, e.obs, [.sendFail s e.kind])
+          | .ok i =>
+            (setSend i.st s (fun y => match y.phase with
+              | .inflight sls => { y with phase := .inflight ((List.range sls.length).zip sls |>.map (fun e => if e.1 == j then { e.2 with k := some i.k } else e.2)) }
+              | _ => y), i.obs, i.acts)
       | _ => (st, [], [])   -- the send failed while issuing: the generator is gone
   | .sendCheck s =>
     match sendGet st s with
@@ -695,11 +767,9 @@ def exec (cfg : Cfg) (st : St) : Act → St × List Ob × List Act
       match get? x.g st.cache.groups with
       | none => (st, [], [.srtcFail r Kind.coordNA])
       | some bm =>
-        match getBrokerClient st bm.nodeId with
-        | .error kd => (st, [], [.srtcFail r kd])
-        | .ok (st1, b, obs1) =>
-          let mr := makeRequest cfg st1 b (.srtc r) true (.group x.g) x.minTimeout
-          (setSrtc mr.1 r (fun y => { y with phase := .inflight mr.2.1 }), obs1 ++ mr.2.2.1, mr.2.2.2)
+        match issueTo cfg st bm.nodeId (.srtc r) true (.group x.g) x.minTimeout false with
+        | .error e => (e.st, e.obs, [.srtcFail r e.kind])
+        | .ok i => (setSrtc i.st r (fun y => { y with phase := .inflight i.k }), i.obs, i.acts)
   | .srtcDone r res =>
     match srtcGet st r with
     | none => (st, [.badOp "srtcDone"], [])
@@ -736,15 +806,49 @@ def exec (cfg : Cfg) (st : St) : Act → St × List Ob × List Act
     | some g =>
       let st1 := { st with aggs := st.aggs.map (fun (h : Agg) => if h.a == g.a then { h with fired := true } else h),
                            closeDlist := if st.closeDlist == some g.a then none else st.closeDlist }
-      match st1.closeWait with
-      | some (o, a) => if a == g.a then ({ st1 with closeWait := none }, [.closeFired o], [.aggCheck]) else (st1, [], [.aggCheck])
-      | none => (st1, [], [.aggCheck])
+      ({ st1 with closeWait := st1.closeWait.filter (fun w => !(w.2 == g.a)) },
+       (st1.closeWait.filter (fun w => w.2 == g.a)).map (fun w => Ob.closeFired w.1), [.aggCheck])
   | .cancelBoots =>
     let bs := st.unawares.filter (fun x => match x.st with | .bootConn _ _ => true | .bootReq _ _ => true | _ => false)
     (st, [], bs.map (fun x => Act.cancelU x.u))
   | .mergeTopics ts lo =>
     let tdict := dictOfList (ts.map (fun t => (t.name, t)))
     ({ st with cache := tdict.foldl (fun c e => mergeTopic c e.2) st.cache }, [], deliverLoad lo (.ok (.simple 1)))
+  | .ltpMerged l ts =>
+    match (st.ltps.filter (fun x => x.l == l)).head? with
+    | none => (st, [.badOp "ltpMerged"], [])
+    | some x =>
+      let tdict := dictOfList (ts.map (fun t => (t.name, t)))
+      let c' := tdict.foldl (fun c e => mergeTopic c e.2) st.cache
+      -- `for topic in topics` iterates the RESPONSE's topics (the local was re-bound by the decode)
+      let missing := tdict.any (fun e =>
+        (match get? e.1 c'.topicErrs with | some err => err != 0 | none => true) ||
+        (match get? e.1 c'.topicParts with | some ps => ps.isEmpty | none => true))
+      if missing then
+        let due := st.now + cfg.retryDelay
+        ({ st with cache := c', ltps := st.ltps.map (fun y => if y.l == l then { y with topics := tdict.map (·.1), phase := .sleeping } else y),
+                   timers := insertTimer { what := .retry l, due := due } st.timers },
+         [.setTimer (.retry l) due], [])
+      else
+        ({ st with cache := c', ltps := st.ltps.map (fun y => if y.l == l then { y with phase := .done } else y) },
+         [], [.opResult x.o .okTrue])
+  | .ltpWake l =>
+    match (st.ltps.filter (fun x => x.l == l)).head? with
+    | none => (st, [.badOp "ltpWake"], [])
+    | some x =>
+      let u := st.unawares.length
+      ({ st with unawares := st.unawares ++ [{ u := u, kind := .metadata x.topics, st := .done, owner := .ltp l }],
+                 ltps := st.ltps.map (fun y => if y.l == l then { y with phase := .waiting } else y) }, [], [.unawareStart u])
+  | .ltpFail l kd =>
+    match (st.ltps.filter (fun x => x.l == l)).head? with
+    | none => (st, [.badOp "ltpFail"], [])
+    | some x => ({ st with ltps := st.ltps.map (fun y => if y.l == l then { y with phase := .done } else y) }, [], [.opResult x.o (.fail kd)])
+  | .cancelDelays =>
+    (st, [], (st.ltps.filter (fun x => x.phase == .sleeping)).map (fun x => Act.cancelDelay x.l))
+  | .cancelDelay l =>
+    -- `deferLater(...).cancel()`: the delayed call is cancelled and the coroutine sees CancelledError
+    if timerActive st (.retry l) then (cancelTimer st (.retry l), [.cancelTimer (.retry l)], [.ltpFail l .cancelled])
+    else (st, [], [])
   | .cancelU u =>
     match unawareGet st u with
     | none => (st, [.badOp "cancelU"], [])
@@ -753,7 +857,12 @@ def exec (cfg : Cfg) (st : St) : Act → St × List Ob × List Act
     let st1 := { st with cache := resetAll st.cache }
     match st1.closeDlist with
     | none => (st1, [.closeFired o], [])
-    | some a => ({ st1 with closeWait := some (o, a) }, [], [])
+    | some a => ({ st1 with closeWait := st1.closeWait ++ [(o, a)] }, [], [])
+  | .closeAgain o =>
+    -- `return self.close_dlist or defer.succeed(None)` of a repeated close()
+    match st.closeDlist with
+    | none => (st, [.closeFired o], [])
+    | some a => ({ st with closeWait := st.closeWait ++ [(o, a)] }, [], [])
   | .opResult o r =>
     if st.liveOps.contains o then ({ st with liveOps := st.liveOps.filter (fun x => !(x == o)) }, [.result o r], [])
     else (st, [.badOp "opResult"], [])
@@ -774,6 +883,7 @@ inductive Ev where
   | send (o : Nat) (keys : List TP) (group : Option String) (failOnError expect : Bool)
   | cload (o : Nat) (g : String)
   | srtc (o : Nat) (g : String) (minTimeout : Option Rat)
+  | ltp (o : Nat) (topics : List String)
   | cancel (o : Nat)
   | close (o : Nat)
   | resetTopics (ts : List String)
@@ -813,10 +923,26 @@ def cancelOp (st : St) (o : Nat) : St × List Ob × List Act :=
     | .inflight k => (st, [], [.cancelReq k])
     | .done => (st, [], [])
   | none =>
+  match (st.ltps.filter (fun x => x.o == o)).head? with
+  | some x =>
+    match x.phase with
+    | .waiting =>
+      match (st.unawares.filter (fun y => y.owner == .ltp x.l && y.st != .done)).head? with
+      | some y => (st, (cancelUnaware y).1, (cancelUnaware y).2)
+      | none => (st, [], [])
+    | .sleeping => (st, [], [.cancelDelay x.l])
+    | .done => (st, [], [])
+  | none =>
     -- a waiter of load_coordinator_for_group
     if st.cfetches.any (fun f => f.waiters.any (fun w => w.1 == .api o && !w.2)) then
       (suppressWaiter st (.api o), [], [.opResult o (.fail .cancelled)])
     else (st, [], [])
+
+/-- what the reactor calls when a timer fires -/
+def timerAct : TimerWhat → Act
+  | .mrtb k => .timeoutFired k
+  | .boot j => .bootTimeout j
+  | .retry l => .ltpWake l
 
 /-- fire due timers one at a time, each to completion, in Clock order -/
 def fireDue (cfg : Cfg) : Nat → St → List Ob → St × List Ob
@@ -827,8 +953,7 @@ def fireDue (cfg : Cfg) : Nat → St → List Ob → St × List Ob
     | t :: rest =>
       if st.now < t.due then (st, obs) else
       let st1 := { st with timers := rest }
-      let act := match t.what with | .mrtb k => Act.timeoutFired k | .boot j => Act.bootTimeout j
-      let (st2, obs2) := runActs cfg fuel st1 [act] obs
+      let (st2, obs2) := runActs cfg fuel st1 [timerAct t.what] obs
       fireDue cfg n st2 obs2
 
 def step (cfg : Cfg) (st : St) (env : Env) (e : Ev) : St × List Ob :=
@@ -841,6 +966,9 @@ def step (cfg : Cfg) (st : St) (env : Env) (e : Ev) : St × List Ob :=
   | .send o keys group foe expect =>
     let st1 := { st with liveOps := st.liveOps ++ [o] }
     if keys.isEmpty then runActs cfg fuel st1 [.opResult o (.fail (.other "ValueError"))] [] else
+    -- a repeated (topic, partition) is refused before anything is resolved or sent (c97bc61)
+    if clientSendValidatesKeysFirst && (sortHP keys).length != keys.length then
+      runActs cfg fuel st1 [.opResult o (.fail (.other "ValueError"))] [] else
     let s := st.sends.length
     let ns : Send := { s := s, o := o, keys := keys, group := group, failOnError := foe, expect := expect, phase := .resolving 0 }
     runActs cfg fuel { st1 with sends := st1.sends ++ [ns] } [.sendResolve s] []
@@ -853,15 +981,21 @@ def step (cfg : Cfg) (st : St) (env : Env) (e : Ev) : St × List Ob :=
     match get? g st1.cache.groups with
     | some _ => runActs cfg fuel st1 [.srtcGo r] []
     | none => let (st2, acts) := cloadJoin st1 (.srtc r) g; runActs cfg fuel st2 acts []
+  | .ltp o topics =>
+    let l := st.ltps.length
+    runActs cfg fuel { st with liveOps := st.liveOps ++ [o], ltps := st.ltps ++ [{ l := l, o := o, topics := topics, phase := .sleeping }] }
+      [.ltpWake l] []
   | .cancel o =>
     let (st1, obs, acts) := cancelOp st o
     runActs cfg fuel st1 acts obs
   | .close o =>
-    if st.closing then (st, [.raised o "AttributeError"]) else
+    if st.closing then
+      -- a second close(): AttributeError before 1d62725, the pending close Deferred after it
+      (if clientCloseIdempotent then runActs cfg fuel st [.closeAgain o] [] else (st, [.raised o "AttributeError"])) else
     let open_ := st.cache.clients.filterMap (fun cl => (bcOfNode st cl.1).map (·.b))
     runActs cfg fuel { st with closing := true, cache := { st.cache with clients := [] },
                                bcs := st.bcs.map (fun i => { i with inClients := false }) }
-      (open_.map Act.closeBc ++ [.newAgg open_, .cancelBoots, .finishClose o]) []
+      (open_.map Act.closeBc ++ [.newAgg open_, .cancelBoots] ++ (if clientCloseWakesRetryDelays then [.cancelDelays] else []) ++ [.finishClose o]) []
   | .resetTopics ts => ({ st with cache := resetTopics st.cache ts }, [])
   | .fire k r => runActs cfg fuel st [.fireReq k r false] []
   | .down b => runActs cfg fuel st [.bcDown b false] []
@@ -911,6 +1045,8 @@ inductive TItem where
   /-- request `k` was written to connection `cid`; the client told connection `cid` to close -/
   | wrote (k : Nat) (cid : Nat)
   | lose (cid : Nat)
+  /-- the connection of bootstrap attempt `j` has gone (its connection-lost notification was delivered) -/
+  | bootGone (j : Nat)
   /-- the simulated network saw a connection attempt / a frame (recorded after `close()` only) -/
   | net (what : String)
   deriving Repr
